@@ -525,6 +525,63 @@ fn check_race(shape: Shape, results: &[Result<Delivered, String>], c: &Counters,
     Ok(())
 }
 
+
+// ---------------------------------------------------------------------------------------------
+// Partial mocks: an exhausted single-use value must refuse, not fall through to the real function
+// ---------------------------------------------------------------------------------------------
+
+thread_local! {
+    static REAL_CALLS: std::cell::Cell<u32> = const { std::cell::Cell::new(0) };
+    static CUR: std::cell::RefCell<Option<Arc<Counters>>> = const { std::cell::RefCell::new(None) };
+}
+
+fn real_utok(_: &impl core::any::Any) -> Tok {
+    REAL_CALLS.with(|c| c.set(c.get() + 1));
+    let c = CUR.with(|c| c.borrow().clone()).expect("harness: counters set");
+    Tok::new(99, &c)
+}
+
+#[unimock(api=TUMock, unmock_with=[real_utok])]
+pub trait TU {
+    fn utok(&self) -> Tok;
+}
+
+fn check_partial_single_use(once: bool, ordered: bool, routing: &[u8]) -> Result<String, String> {
+    let c = Arc::new(Counters::default());
+    CUR.with(|cur| *cur.borrow_mut() = Some(c.clone()));
+    REAL_CALLS.with(|r| r.set(0));
+    let clause_mock = match (ordered, once) {
+        (false, false) => Unimock::new_partial(TUMock::utok.some_call(matching!()).returns(Tok::new(1, &c))),
+        (false, true) => Unimock::new_partial(TUMock::utok.some_call(matching!()).returns(Tok::new(1, &c)).once()),
+        (true, false) => Unimock::new_partial(TUMock::utok.next_call(matching!()).returns(Tok::new(1, &c))),
+        (true, true) => Unimock::new_partial(TUMock::utok.next_call(matching!()).returns(Tok::new(1, &c)).once()),
+    };
+    let original = Quiet::new(clause_mock);
+    let clone = Quiet::new(original.clone());
+    let mut summary = vec![];
+    for (k, via) in routing.iter().enumerate() {
+        let inst: &Unimock = if *via == 0 { &original } else { &clone };
+        let r = catch(|| <Unimock as TU>::utok(inst).id);
+        let real = REAL_CALLS.with(|r| r.get());
+        if real != 0 {
+            return Err(format!("request {}: the real function was called ({r:?}) although the method has a clause and the call matched its pattern", k + 1));
+        }
+        match (k, &r) {
+            (0, Ok(1)) => summary.push("delivered"),
+            (0, other) => return Err(format!("request 1: expected the configured token, observed {other:?}")),
+            (_, Err(msg)) if matches!(classify(msg), PanicClass::MoreThanOnce | PanicClass::OutOfRange) => summary.push("refused"),
+            (_, other) => return Err(format!("request {}: a single-use value was already handed out, expected a panic, observed {other:?}", k + 1)),
+        }
+    }
+    drop(clone);
+    teardown(original, false);
+    let (cons, dropped) = (c.constructed.load(Ordering::SeqCst), c.dropped.load(Ordering::SeqCst));
+    if cons != dropped || cons != 1 {
+        return Err(format!("after teardown: constructed {cons}, dropped {dropped}"));
+    }
+    Ok(summary.join(","))
+}
+
 fn main() {
     silence_panics();
     let ctx: &'static vh::explore::Ctx = Box::leak(Box::new(vh::explore::Ctx::from_args("C12")));
@@ -556,6 +613,26 @@ fn main() {
                         &format!("single-use:{shape:?}/{path:?}"),
                         &format!("shape {shape:?}, path {path:?}, requests routed {routing:?} (teardown by drop and by verify()): {what}"),
                         J::obj().set("kind", "single-use").set("shape", format!("{shape:?}")).set("path", format!("{path:?}")).set("routing", format!("{routing:?}")),
+                    ),
+                }
+            }
+        }
+    }
+    for once in [false, true] {
+        for ordered in [false, true] {
+            for routing in &routings {
+                ctx.tick();
+                stats.add("traces_validated_against_impl", 1);
+                stats.add("transitions", routing.len() as u64 + 2);
+                stats.add("partial_mock_cases", 1);
+                match check_partial_single_use(once, ordered, routing) {
+                    Ok(summary) => {
+                        outcomes.insert(format!("partial:{summary}"));
+                    }
+                    Err(what) => ctx.violation(
+                        "single-use:partial-mock",
+                        &format!("partial mock, {} single-use returns{}, requests routed {routing:?}: {what}", if ordered { "next_call" } else { "some_call" }, if once { ".once()" } else { "" }),
+                        J::obj().set("kind", "partial").set("routing", format!("{routing:?}")),
                     ),
                 }
             }
